@@ -17,7 +17,9 @@ EXPLANATION = ("Over every function of the parser crates/modules (about 2400 MIR
                "reachable by input are findings); (5) BND: every slice access (`x[a..b]`, `x[i]`, split_at) and checked subtraction in the scope - also those whose operands are "
                "not decode-tainted - is either discharged by the LIN bounds prover (obligation E >= 0 as a linear form over symbolic lengths; facts from dominating comparisons, "
                "searches on the same slice, is_empty/first/starts_with outcomes, earlier accesses) or on the reviewed list rules/c06_bounds.json (keyed by function and kind, counts "
-               "compared; a review may name a validation elsewhere that must still be present). It does not prove the absence of all panics: additions/multiplications that overflow "
+               "compared; a review may name a validation elsewhere that must still be present); scalar indexing of Vec/SmallVec/BStr (Index::index calls) is part of it; "
+               "(6) every division/remainder (MIR `divide by zero` assertion) and every chunks/windows/step_by size in the scope has a non-zero constant operand, one that derives only "
+               "from non-zero constants and hash lengths, or a reviewed reason. It does not prove the absence of all panics: additions/multiplications that overflow "
                "and panics inside callees outside the scope are not decided.")
 RULES = os.path.join(os.path.dirname(os.path.dirname(os.path.abspath(__file__))), "rules")
 EXTRA_SOURCES = re.compile(r"^(gix_utils::btoi::(to_signed|to_unsigned)(_with_radix)?)$")
@@ -257,6 +259,52 @@ def run(db, chk):
         chk.set("bnd", {"sites": n_sites, "proved": n_proved, "reviewed": n_rev})
         chk.floor("BND slice-access / subtraction sites examined", n_sites, 350)
         chk.ob("slice-access-bounded", "%d sites discharged by the prover, %d on the reviewed list" % (n_proved, n_rev), True)
+    zero_operand_rule(fns, chk)
+
+
+NONZERO_CALLS = r"Kind>::len_in_bytes$|Kind>::len_in_hex$"
+ZERO_REVIEWED = {
+    ("gix_index::decode::<impl gix_index::State>::from_bytes::{closure#0}", "chunks"): "chunk_size = ceil(entry_offsets.len() / num_threads): the IEOT decoder returns None for zero offsets (len >= 1) and the threaded path needs num_threads > 1 before the decrement (>= 1)",
+    ("gix_index::decode::<impl gix_index::State>::from_bytes::{closure#0}::{closure#1}", "divzero"): "num_chunks = entry_offsets.chunks(chunk_size).len() of a non-empty slice, hence >= 1",
+    ("gix_index::decode::<impl gix_index::State>::from_bytes::{closure#0}::{closure#1}::{closure#1}", "divzero"): "same num_chunks (captured), >= 1",
+    ("gix_commitgraph::file::access::<impl gix_commitgraph::File>::iter_base_graph_ids", "chunks_exact"): "self.hash_len is object_hash.len_in_bytes() stored by File::new (20)",
+}
+
+
+def zero_operand_rule(fns, chk):
+    """panics of the `zero operand` kind in the parser scope: every MIR division/remainder assertion (`attempt to divide by zero`) and every
+    chunks/chunks_exact/windows/step_by size has an operand that is a non-zero constant, derives only from non-zero constants and hash lengths, or
+    is on the reviewed table above (one reason per site)."""
+    n = 0
+    for f in fns:
+        fl = None
+        sites = []
+        for bi in f.reachable_blocks():
+            t = f.term(bi)
+            if t[0] == "assert" and len(t) > 3 and t[3] in ("divzero", "remzero") and "p" in t[1]:
+                ds = [rv for b2, si, pl, rv, ln, mc in f.assigns() if b2 == bi and pl == [t[1]["p"][0]]]
+                if ds and ds[-1][0] == "bin" and ds[-1][1] == "Eq":
+                    sites.append(("divzero", ds[-1][2], t[-1] if isinstance(t[-1], int) else f.line))
+        for c in f.calls():
+            if c.is_(r"::(chunks|chunks_exact|chunks_mut|chunks_exact_mut|rchunks|windows|step_by)$") and len(c.args) >= 2:
+                sites.append((c.name.split("::")[-1], c.args[1], c.line))
+        for kind, op, ln in sites:
+            n += 1
+            if "p" not in op:
+                ok = isinstance(op.get("v"), int) and op["v"] != 0
+                why = "constant %s" % op.get("v")
+            else:
+                fl = fl or Flow(f)
+                r = fl.roots(op, stop_named=False, stop_calls=NONZERO_CALLS)
+                consts = [x[1] for x in r if x[0] == "const"]
+                other = [x for x in r if x[0] not in ("const", "constdef") and not (x[0] == "call" and re.search(NONZERO_CALLS, x[1])) ]
+                ok = not other and all(isinstance(v, int) and v != 0 for v in consts) and bool(r)
+                why = "derives from %s" % sorted({str(x[:2]) for x in r})[:3]
+                if not ok and (f.name, kind if kind != "remzero" else "divzero") in ZERO_REVIEWED:
+                    ok, why = True, ZERO_REVIEWED[(f.name, kind if kind != "remzero" else "divzero")]
+            chk.ob("zero-operand", "%s %s@%s" % (f.name.split("::")[-1], kind, ln), ok,
+                   "a divisor / chunk size in parser code may be zero (%s)" % why, "%s:%s" % (f.file, ln), key="zero-operand|%s|%s" % (f.name, kind))
+    chk.floor("division / chunk-size sites in the parser scope", n, 30)
 
 
 LEN_MINUS_OK = {
